@@ -590,6 +590,7 @@ pub struct Sim {
     pub ctx_sh: Rc<RefCell<CtxShared>>,
     pub ctx_dropped: bool,
     pub hold_ctx: bool,
+    pub stream_handovers: u64,
     pub handles: Vec<Option<ContextHandle>>,
     pub ops: Vec<OpSlot>,
     pub streams: Vec<StreamSlot>,
@@ -637,6 +638,7 @@ impl Sim {
             ctx_sh: sh,
             ctx_dropped: false,
             hold_ctx: false,
+            stream_handovers: 0,
             handles: vec![Some(handle)],
             ops: Vec::new(),
             streams: Vec::new(),
@@ -898,6 +900,19 @@ impl Sim {
         let idx = self.streams.len() - 1;
         self.note(|| format!("stream{idx} taken from op{op}"));
         Some(idx)
+    }
+
+    /// The stream is handed to another task (the first one lost a select, timed out, or passed it on): from now on it is polled
+    /// under a new waker, and only that waker being woken gets it polled again. The new owner polls it once on receipt.
+    pub fn handover_stream(&mut self, s: usize) {
+        if self.streams[s].stream.is_none() {
+            return;
+        }
+        let w = TaskWaker::new(stream_id(s), &self.runq);
+        w.wake_by_ref();
+        self.streams[s].w = w;
+        self.stream_handovers += 1;
+        self.note(|| format!("stream{s} handed to another task (new waker)"));
     }
 
     /// Polls the stream until it returns Pending or ends. Returns number of new items.
